@@ -7,7 +7,13 @@ deleted / grown / shrunk / concatenated / unpickled, aliased columns created bef
 non-default default_col_type and sorted=False, Mixed / Float / Int / Series columns), a recorded user function, the
 implementation's result compared (a) in Coq with Spec/Functional.v (oracle) and Model/Functional.v (model) on the same
 table and the tabulated function, (b) on the Python side with a by-value reference, and audited for purity (argument
-unchanged, nothing shared between argument and result, writes to either side do not reach the other)."""
+unchanged, nothing shared between argument and result, writes to either side do not reach the other).
+typed_* cases: the same on tables whose IntColumn / FloatColumn cells are the values on which Python numbers and NumPy
+scalars behave differently (integers near 2**31, 2**31.5, 2**62; 0.0, -0.0, the largest / smallest doubles) with row and
+cell functions whose result depends on the exact type and arithmetic of the cell they receive (type(x).__name__,
+isinstance(x, int), x * x, x << 70, 2 ** x, 1 / x, x ** 400, 5.0 % x, repr(x), '%r' % x, json.dumps(x), (x == x) is True).
+The expected result is f applied to the cells as read from the table (dm[name][i]); that reference application also
+heads the function table handed to Coq.  An exception raised by f is an outcome: map_/filter_ must raise the same."""
 import itertools
 import math
 import numbers
@@ -28,6 +34,11 @@ import pyobs as O
 #       MixedColumn (the copy dm[:] drops default_col_type), whereas dm[new_name] = value creates the default type;
 #  (F4) filter_(f, dm.a * 2) (a column that sits under no name in its table): KeyError (col.name is None);
 #  (F5) filter_(functools.partial(...), col): silently returns an empty column (not a types.FunctionType).
+#  (F6) map_(f, col) / filter_(f, col) / col @ f on a FloatColumn or IntColumn call f with the raw NumPy scalars of the
+#       buffer (np.float64 / np.int64), not with the cells as col[i] gives them (Python float / int): a cell function
+#       that depends on the exact type or arithmetic of its argument (type(x) is float, isinstance(x, int), x * x beyond
+#       2**63, 1 / x on 0.0, repr(x), json.dumps(x)) gives other results than f(col[i]).  map_/filter_ on a DataMatrix
+#       (Row.__iter__ -> col[i]) and on a MixedColumn pass the cells themselves; those are in the default stream.
 INCLUDE_PENDING_FINDINGS = False
 
 
@@ -164,6 +175,110 @@ class Recorder(object):
         return g
 
 
+class RefCalls(object):
+    """the user function applied by the REFERENCE (to the cells as read from the table); records (argument, result) and
+    the exception the function raised, if any"""
+
+    def __init__(self, fn):
+        self.fn, self.calls, self.raised, self.at = fn, [], None, None
+
+    def __call__(self, arg):
+        try:
+            r = self.fn(arg)
+        except Exception as e:      # noqa: BLE001
+            if self.raised is None:
+                self.raised, self.at = O.exn_name(e), len(self.calls)
+            raise
+        self.calls.append((dict(arg) if isinstance(arg, dict) else arg, r))
+        return r
+
+
+def res_key(r):
+    """a result as the table will store it: NumPy scalars by their Python value (a cell write converts them), everything
+    else by (type, repr)"""
+    if isinstance(r, dict):
+        return tuple((k, res_key(v)) for k, v in r.items())
+    r = plain(r)
+    import numpy as np
+    if isinstance(r, np.bool_):
+        r = bool(r)
+    return tok_key(r)
+
+
+# Integers whose squares / multiples leave int64 although they are ordinary IntColumn cells, and floats on which Python
+# arithmetic raises where NumPy arithmetic returns inf / nan
+BIG_INT = [3037000500, -3037000500, 3037000499, 2 ** 31, 2 ** 31 - 1, -2 ** 31, 46341, 2 ** 53 + 1, 2 ** 62 - 1,
+           -(2 ** 62) + 1, 2 ** 61]
+EDGE_FLT = [0.0, 0.0, -0.0, 5e-324, 1.7976931348623157e308, -1e300, float(2 ** 53), 0.1, 1e-300]
+
+
+def typed_cell_funs():
+    """cell functions whose result depends on the exact Python type / arithmetic of the cell: name -> function of one
+    cell.  Each is total up to the exceptions Python itself raises (those are outcomes)."""
+    import json
+
+    def small(x):
+        return type(x) is not bool and isinstance(x, numbers.Integral) and -70 < x < 70
+
+    return {
+        'ty_name': lambda x: type(x).__name__,
+        'ty_isint': lambda x: x // 2 if isinstance(x, int) else 'not an int',
+        'ty_isfloat': lambda x: type(x) is float,
+        'ty_square': lambda x: x * x if isnum(x) else x,
+        'ty_times4': lambda x: x * 4 if isnum(x) else None,
+        'ty_recip': lambda x: 1 / x,
+        'ty_recip_guard': lambda x: _guarded(lambda: 1 / x),
+        'ty_repr': lambda x: 'r' + repr(x),
+        'ty_fmt': lambda x: '%r|%s' % (x, x),
+        'ty_pow2': lambda x: 2 ** x if small(x) else 0,
+        'ty_fpow': lambda x: x ** 400 if type(x) is not bool and isinstance(x, float) else 1,
+        'ty_json': lambda x: json.dumps(x),
+        'ty_idiv': lambda x: 7 // x if isnum(x) and x == x else -1,
+        'ty_mod': lambda x: 5.0 % x if isnum(x) and x == x else -1.0,
+        'ty_cmp_is': lambda x: (x == x) is True,
+        'ty_shift': lambda x: x << 70 if isinstance(x, numbers.Integral) and type(x) is not bool and x >= 0 else 0,
+    }
+
+
+def typed_cell_preds():
+    """the same for predicates (the truth value of the result is what filter_ uses)"""
+    import json
+    inf = float('inf')
+
+    def small(x):
+        return type(x) is not bool and isinstance(x, numbers.Integral) and -70 < x < 70
+
+    def fin(x):
+        return isnum(x) and x == x and abs(x) != inf
+
+    return {
+        'ty_name': lambda x: type(x).__name__ in ('int', 'float', 'str', 'NoneType'),
+        'ty_isint': lambda x: isinstance(x, int),
+        'ty_isfloat': lambda x: type(x) is float,
+        'ty_square': lambda x: fin(x) and x * x >= 0,
+        'ty_times4': lambda x: fin(x) and (x * 4 >= x) == (x >= 0),
+        'ty_recip': lambda x: 1 / x > 0,
+        'ty_recip_guard': lambda x: _guarded(lambda: 1 / x) is None,
+        'ty_repr': lambda x: repr(x)[0] in '-0123456789',
+        'ty_pow2': lambda x: (2 ** x if small(x) else 0) < 1,
+        'ty_fpow': lambda x: (x ** 400 if type(x) is not bool and isinstance(x, float) else 1) > 1,
+        'ty_json': lambda x: len(json.dumps(x)) > 1,
+        'ty_idiv': lambda x: (7 // x if isnum(x) and x == x else -1) > 0,
+        'ty_mod': lambda x: (5.0 % x if isnum(x) and x == x else -1.0) >= 0,
+        'ty_cmp_is': lambda x: (x == x) is True,
+        'ty_shift': lambda x: (x << 70 if isinstance(x, numbers.Integral) and type(x) is not bool and x > 0 else 0) > 0,
+    }
+
+
+def _guarded(thunk):
+    try:
+        return thunk()
+    except ZeroDivisionError:
+        return None
+    except TypeError:
+        return 'n/a'
+
+
 class C19:
     id = 'C19'
     props_file = 'theories/Props/C19.v'
@@ -182,7 +297,11 @@ class C19:
             'map_/filter_/setcol: a table from the zoo (11 derivation routes composed up to 3 deep, aliases before/after, '
             'non-default flags, Series columns), a recorded row/cell function from 6-9 families, result compared with '
             'Spec/Functional.v and Model/Functional.v on the tabulated function, with a by-value Python reference, and '
-            'audited (argument unchanged, no shared column/buffer/index, writes do not cross). non-trivial: runs f at '
+            'audited (argument unchanged, no shared column/buffer/index, writes do not cross); typed_*: the same on tables '
+            'with int64-edge integers / 0.0 / extreme doubles and 16 families of row/cell functions sensitive to the exact '
+            'Python type and arithmetic of the cell (type name, isinstance, products and shifts beyond 2**63, 1/x, x**400, '
+            'repr, json), expected = f on the cells as read (dm[name][i]), the reference application heads the function '
+            'table given to Coq, an exception of f is judged as the expected outcome. non-trivial: runs f at '
             'least once / table has rows; distinct by (kind, route, family, shape)')
     trusted_base = [
         'Coq 8.16.1 kernel (coqc; vm_compute for evaluating cases; no native_compute)',
@@ -298,8 +417,12 @@ class C19:
     MIX = [1, 2, 3, 2.5, 'x', 'y', None, -1, '', 'é', float('nan'), float('inf'), 0, 10 ** 15 + 1, -2.75]
     FLT = [0, 1, 2, 2.5, -1, float('nan'), float('inf'), float('-inf'), 1e300, -0.5]
 
-    def _base(self, sub, n, series, first_u=0):
+    def _base(self, sub, n, series, first_u=0, extreme=False):
+        """extreme: the numeric columns also hold integers near 2**31 / 2**31.5 / 2**62 and floats on which Python and
+        NumPy arithmetic differ (0.0, -0.0, the largest and smallest doubles)"""
         from datamatrix import DataMatrix, MixedColumn, FloatColumn, IntColumn, SeriesColumn
+        if extreme:
+            return self._base_extreme(sub, n, series, first_u)
         dm = DataMatrix(length=n)
         order = ['u', 'a', 'f', 'i'] + (['s'] if series else [])
         sub.shuffle(order)
@@ -322,15 +445,39 @@ class C19:
                     dm.s[r] = [sub.randint(0, 5), sub.choice([0.5, 1.5, float('nan')])]
         return dm
 
+    def _base_extreme(self, sub, n, series, first_u):
+        from datamatrix import DataMatrix, MixedColumn, FloatColumn, IntColumn, SeriesColumn
+        dm = DataMatrix(length=n)
+        order = ['u', 'a', 'f', 'i'] + (['s'] if series else [])
+        sub.shuffle(order)
+        for nm in order:
+            if nm == 'u':
+                dm.u = MixedColumn
+                dm.u = list(range(first_u, first_u + n))
+            elif nm == 'a':
+                dm.a = MixedColumn
+                dm.a = [sub.choice(self.MIX + [0.5, 3037000500, -3, 2 ** 40]) for _ in range(n)]
+            elif nm == 'f':
+                dm.f = FloatColumn
+                dm.f = [sub.choice(EDGE_FLT if sub.random() < 0.45 else self.FLT) for _ in range(n)]
+            elif nm == 'i':
+                dm.i = IntColumn
+                dm.i = [sub.choice(BIG_INT) if sub.random() < 0.4 else sub.randint(-2, 3) for _ in range(n)]
+            else:
+                dm.s = SeriesColumn(depth=2)
+                for r in range(n):
+                    dm.s[r] = [sub.randint(0, 5), sub.choice([0.5, 1.5, float('nan')])]
+        return dm
+
     ALIASES = [('a', 'b'), ('a', 'A'), ('f', 'g'), ('f', 'e'), ('i', 'j'), ('u', 'v'), ('i', 'h')]
 
-    def _zoo(self, sub, series_ok=False):
+    def _zoo(self, sub, series_ok=False, extreme=False):
         """-> (dm, route tags)."""
         from datamatrix import IntColumn, FloatColumn, operations as ops
         n = sub.choice([0, 1, 2, 3, 3, 4, 4, 5, 6, 7])
         series = series_ok and sub.random() < 0.2
-        dm = self._base(sub, n, series)
-        tags = []
+        dm = self._base(sub, n, series, extreme=extreme)
+        tags = ['extreme'] if extreme else []
         if sub.random() < 0.2:
             src, al = sub.choice(self.ALIASES)
             dm[al] = dm[src]
@@ -363,7 +510,7 @@ class C19:
             elif r == 'shrunk':
                 dm.length = max(0, m - 1)
             elif r == 'concat':
-                other = self._base(sub, sub.randint(0, 3), series, first_u=100)
+                other = self._base(sub, sub.randint(0, 3), series, first_u=100, extreme=extreme)
                 dm = (dm << other) if sub.random() < 0.7 else (other << dm)
             elif r == 'unpickled':
                 dm = pickle.loads(pickle.dumps(dm, sub.choice([2, 4])))
@@ -624,6 +771,44 @@ class C19:
             'const': lambda x: c,
         }[fam]
 
+    # ---- user functions that look at the exact type / arithmetic of the cells they receive -------------------------
+    @staticmethod
+    def _typed_cols(sub, dm, one=False):
+        """the columns a typed row function reads: mostly the IntColumn / FloatColumn ones (and their other names)"""
+        ints = [nm for nm in ('i', 'j', 'h') if nm in dm._cols]
+        flts = [nm for nm in ('f', 'g', 'e') if nm in dm._cols]
+        mixed = [nm for nm in ('a', 'u', 'b', 'A', 'v') if nm in dm._cols]
+        if one:
+            return [sub.choice(sub.choice([ints, ints, flts, flts, mixed]))]
+        cols = sub.choice([['i'], ['f'], ['i', 'f'], ['f', 'i'], ['i', 'f', 'a'], ['a', 'i'], ['u', 'f']])
+        if sub.random() < 0.3:
+            cols = cols + [nm for nm in ints[1:] + flts[1:] if nm not in cols]
+        return cols
+
+    def _rowfun_typed(self, sub, dm):
+        funs = typed_cell_funs()
+        fam = sub.choice(sorted(funs))
+        g = funs[fam]
+        cols = self._typed_cols(sub, dm)
+        return fam, lambda d: dict(('t_' + c, g(d[c])) for c in cols)
+
+    def _rowpred_typed(self, sub, dm):
+        preds = typed_cell_preds()
+        fam = sub.choice(sorted(preds))
+        q = preds[fam]
+        c = self._typed_cols(sub, dm, one=True)[0]
+        return fam, lambda d: q(d[c])
+
+    def _cellmap_typed(self, sub):
+        funs = typed_cell_funs()
+        fam = sub.choice(sorted(funs))
+        return fam, funs[fam]
+
+    def _cellpred_typed(self, sub):
+        preds = typed_cell_preds()
+        fam = sub.choice(sorted(preds))
+        return fam, preds[fam]
+
     # ---- by-value Python reference ------------------------------------------------------------------------------
     @staticmethod
     def _coerce(ct, v, depth=None):
@@ -731,18 +916,42 @@ class C19:
     def _rowkey(d):
         return tuple((k, tok_key(plain(d[k]))) for k in sorted(d))
 
+    def _row_table(self, ref, rec, reskey=res_key):
+        """-> (table, problem).  The function table handed to Coq: f on the source rows as the reference read them
+        (dm[name][i] for every column) first, then the rows the implementation called f with.  A row of the
+        implementation that reads like a source row but on which f gave another result means that f was not given the
+        cells of that row (e.g. NumPy scalars instead of the Python numbers) -- a problem of the implementation; two
+        results from the same side mean that the function is not a function (a problem of the harness)."""
+        table, seen, problem = [], {}, None
+        for side, calls in (('reference', ref.calls), ('implementation', rec.calls)):
+            for a, r in calls:
+                k, rk = self._rowkey(a), reskey(r)
+                if k in seen:
+                    if seen[k][0] != rk and problem is None:
+                        if seen[k][1] == side:
+                            return None, 'HARNESS: the recorded function gave two results for one row'
+                        problem = ('f was not called with the cells of the source row: on the row %r f(**row) is %r, the '
+                                   'call made by the implementation (cell types %r) gave %r' % (
+                                       dict((n, seen[k][2][0][n]) for n in sorted(seen[k][2][0])), seen[k][2][1],
+                                       dict((n, type(a[n]).__name__) for n in sorted(a)), r))
+                    continue
+                seen[k] = (rk, side, (a, r))
+                table.append((a, r))
+        return table, problem
+
     def _res_lit(self, outcome, lit):
         if outcome[0] == 'exn':
             return '(Raise %s)' % outcome[1]
         return '(Ok %s)' % lit(outcome[1])
 
-    def _case_map_dm(self, sub):
+    def _case_map_dm(self, sub, typed=False):
         from datamatrix import functional as fnc, DataMatrix
-        dm, tags = self._zoo(sub, series_ok=True)
-        fam, fn = self._rowfun(sub, dm)
+        dm, tags = self._zoo(sub, series_ok=True, extreme=typed)
+        fam, fn = self._rowfun_typed(sub, dm) if typed else self._rowfun(sub, dm)
         before = self._snap(dm)
         lits = self._lits(dm) if 'series' not in tags else None
         rec = Recorder(fn, True)
+        ref = RefCalls(fn)
         explicit = sub.random() < 0.5
         if explicit:
             tags = tags + ['explicit-params']
@@ -750,14 +959,18 @@ class C19:
         outcome = O.outcome(lambda: fnc.map_(user_f, dm))
         in_model, obs_o, obs_m = self._observe_tab(outcome)
         problem = None
+        # the reference applies f to the cells as read from the table; an exception f raises there is the expected outcome
         try:
-            want = ('ok', self._ref_map_dm(dm, fn))
+            want = ('ok', self._ref_map_dm(dm, ref))
         except Exception as e:      # noqa: BLE001
             want = ('exn', O.exn_name(e))
         if outcome[0] == 'ok':
             r = outcome[1]
             if not isinstance(r, DataMatrix):
                 problem = 'map_(f, dm) returned a %s' % type(r).__name__
+            elif want[0] == 'exn' and ref.raised:
+                problem = 'map_(f, dm) [%s] on a %s table returned although f(**row) raises %s for source row %d' % (
+                    fam, '+'.join(tags), want[1], ref.at)
             elif want[0] == 'exn':
                 problem = 'map_(f, dm) returned although a cell write must raise %s' % want[1]
             else:
@@ -771,17 +984,21 @@ class C19:
                 problem = self._first(problem, self._shares(dm, r))
         elif want[0] == 'ok':
             problem = 'map_(f, dm) [%s] raised %s on a %s table' % (fam, outcome[1], '+'.join(tags))
+        elif ref.raised and outcome[1] != want[1]:
+            problem = 'map_(f, dm) [%s] raised %s on a %s table, f(**row) raises %s (source row %d)' % (
+                fam, outcome[1], '+'.join(tags), want[1], ref.at)
         if self._snap(dm) != before:
             problem = self._first(problem, 'map_ modified its argument')
         if outcome[0] == 'ok' and isinstance(outcome[1], DataMatrix):
             problem = self._first(problem, self._poke(outcome[1], dm, before))
-        res = {'pyfail': problem, 'tags': tags + ['f:' + fam], 'nontrivial': len(dm) > 0,
+        table, tproblem = self._row_table(ref, rec)
+        problem = self._first(problem, tproblem)
+        res = {'pyfail': problem, 'tags': tags + ['f:' + fam] + (['f-raises'] if ref.raised else []),
+               'nontrivial': len(dm) > 0,
                'sig': '%s|%s|%d|%s' % ('+'.join(tags), fam, len(dm), outcome[0]),
                'observed': {'outcome': outcome[0] if outcome[0] == 'ok' else outcome[1], 'problem': problem}}
-        table = self._tabulate(rec, self._rowkey)
-        if table is None:
-            res['pyfail'] = self._first(problem, 'HARNESS: the recorded function gave two results for one row')
-        ok_model = lits is not None and in_model and table is not None and \
+        # Coq side: f is a total function there, so a case in which f raised is judged on the Python side only
+        ok_model = lits is not None and in_model and table is not None and not ref.raised and \
             all(isinstance(u, dict) and all(type(k) is str and O.pyv(v) != 'POther' for k, v in u.items()) for _a, u in table)
         if ok_model:
             tbl = L.lst('(%s, %s)' % (self._row_lit(a), self._upd_lit(u)) for a, u in table)
@@ -791,13 +1008,14 @@ class C19:
             res['tags'] = res['tags'] + ['python-side-only']
         return res
 
-    def _case_filter_dm(self, sub):
+    def _case_filter_dm(self, sub, typed=False):
         from datamatrix import functional as fnc, DataMatrix
-        dm, tags = self._zoo(sub, series_ok=True)
-        fam, fn = self._rowpred(sub, dm)
+        dm, tags = self._zoo(sub, series_ok=True, extreme=typed)
+        fam, fn = self._rowpred_typed(sub, dm) if typed else self._rowpred(sub, dm)
         before = self._snap(dm)
         lits = self._lits(dm) if 'series' not in tags else None
         rec = Recorder(fn, True)
+        ref = RefCalls(fn)
         explicit = sub.random() < 0.4
         if explicit:
             tags = tags + ['explicit-params']
@@ -805,13 +1023,25 @@ class C19:
         outcome = O.outcome(lambda: fnc.filter_(user_f, dm))
         in_model, obs_o, obs_m = self._observe_tab(outcome)
         problem = None
-        if outcome[0] == 'ok' and isinstance(outcome[1], DataMatrix):
-            r = outcome[1]
-            rows = []
+        # the reference: f applied to the cells of every source row, as read from the table; if f raises there, that
+        # exception is the expected outcome of filter_
+        rows, want_exn = [], None
+        try:
             for j in range(len(dm)):
                 d = {nm: (c._seq[j] if hasattr(c, 'depth') else c[j]) for nm, c in dm._cols.items()}
-                if truthy(fn(d)):
+                if truthy(ref(d)):
                     rows.append(j)
+        except Exception as e:      # noqa: BLE001
+            want_exn = O.exn_name(e)
+        if want_exn is not None:
+            if outcome[0] == 'ok':
+                problem = 'filter_(f, dm) [%s] on a %s table returned although f(**row) raises %s for source row %d' % (
+                    fam, '+'.join(tags), want_exn, ref.at)
+            elif outcome[1] != want_exn:
+                problem = 'filter_(f, dm) [%s] raised %s on a %s table, f(**row) raises %s (source row %d)' % (
+                    fam, outcome[1], '+'.join(tags), want_exn, ref.at)
+        elif outcome[0] == 'ok' and isinstance(outcome[1], DataMatrix):
+            r = outcome[1]
             want = [(nm, type(c).__name__, [repr(self._cells(c)[j]) for j in rows]) for nm, c in dm._cols.items()]
             got = self._view(r)
             if sorted(got) != sorted(want) or len(r) != len(rows):
@@ -830,13 +1060,13 @@ class C19:
             problem = self._first(problem, 'filter_ modified its argument')
         if outcome[0] == 'ok' and isinstance(outcome[1], DataMatrix):
             problem = self._first(problem, self._poke(outcome[1], dm, before))
-        res = {'pyfail': problem, 'tags': tags + ['p:' + fam], 'nontrivial': len(dm) > 0,
+        table, tproblem = self._row_table(ref, rec, truthy)
+        problem = self._first(problem, tproblem)
+        res = {'pyfail': problem, 'tags': tags + ['p:' + fam] + (['f-raises'] if ref.raised else []),
+               'nontrivial': len(dm) > 0,
                'sig': '%s|%s|%d' % ('+'.join(tags), fam, len(dm)),
                'observed': {'outcome': outcome[0] if outcome[0] == 'ok' else outcome[1], 'problem': problem}}
-        table = self._tabulate(rec, self._rowkey)
-        if table is None:
-            res['pyfail'] = self._first(problem, 'HARNESS: the recorded predicate gave two results for one row')
-        if lits is not None and in_model and table is not None:
+        if lits is not None and in_model and table is not None and not ref.raised:
             tbl = L.lst('(%s, %s)' % (self._row_lit(a), L.boolean(truthy(b))) for a, b in table)
             res['oracle'] = 'oracle_filter_dm %s %s %s' % (tbl, lits[0], obs_o)
             res['model'] = 'model_filter_dm %s %s %s' % (tbl, lits[1], obs_m)
@@ -844,13 +1074,14 @@ class C19:
             res['tags'] = res['tags'] + ['python-side-only']
         return res
 
-    def _pick_col(self, sub, dm, alias):
+    def _pick_col(self, sub, dm, alias, kinds=None):
         """alias: None = any column, False = only columns known under one name, True = only aliased ones"""
         groups = {}
         for nm, c in dm._cols.items():
             groups.setdefault(id(c), []).append(nm)
         names = [nm for nm, c in dm._cols.items() if not hasattr(c, 'depth')
-                 and (alias is None or (len(groups[id(c)]) > 1) == alias)]
+                 and (alias is None or (len(groups[id(c)]) > 1) == alias)
+                 and (kinds is None or KIND[type(c).__name__] in kinds)]
         return sub.choice(names) if names else None
 
     @staticmethod
@@ -859,28 +1090,38 @@ class C19:
         import numpy as np
         return np.array([w], dtype=ct.dtype)[0].item()
 
-    def _case_map_col(self, sub):
+    def _case_map_col(self, sub, typed=False, pending=None):
+        """typed: a cell function that depends on the exact type / arithmetic of the cell, on a MixedColumn (the cells
+        are handed over as they are); on a numeric column that is the pending finding F6"""
         from datamatrix import functional as fnc, MixedColumn
-        dm, tags = self._zoo(sub)
-        name = self._pick_col(sub, dm, None)
+        dm, tags = self._zoo(sub, extreme=typed)
+        name = self._pick_col(sub, dm, None, None if not typed else (['KFloat', 'KInt'] if pending else ['KMixed']))
         col = dm[name]
-        fam, fn = self._cellmap(sub)
+        fam, fn = self._cellmap_typed(sub) if typed else self._cellmap(sub)
         before = self._snap(dm)
         lits = self._lits(dm)
         col_lit = self._col_lit(name, col) if lits else None
         rec = Recorder(fn, False)
+        ref = RefCalls(fn)
         ct = type(col)
         outcome = O.outcome(lambda: fnc.map_(rec.as_cell_function(), col))
         in_model, obs = self._observe_col(outcome, ct)
         problem = None
+        # the reference applies f to the cells as read from the column (col[i]); an exception of f is the expected outcome
         try:
-            want = [fn(v) if ct is MixedColumn else self._np_cast(ct, fn(v)) for v in self._cells(col)]
+            want = [ref(v) if ct is MixedColumn else self._np_cast(ct, ref(v)) for v in self._cells(col)]
             want = ('ok', [repr(w) for w in want])
         except Exception as e:      # noqa: BLE001
             want = ('exn', O.exn_name(e))
+        if outcome[0] == 'exn' and want[0] == 'exn' and ref.raised and outcome[1] != want[1]:
+            problem = 'map_(f, col %s) [%s] raised %s on a %s table, f(cell) raises %s (cell %d)' % (
+                name, fam, outcome[1], '+'.join(tags), want[1], ref.at)
         if outcome[0] == 'ok':
             r = outcome[1]
-            if want[0] == 'exn':
+            if want[0] == 'exn' and ref.raised:
+                problem = 'map_(f, col %s) [%s] on a %s table returned although f(cell) raises %s for cell %d' % (
+                    name, fam, '+'.join(tags), want[1], ref.at)
+            elif want[0] == 'exn':
                 problem = 'map_(f, col) returned although the conversion must raise %s' % want[1]
             elif type(r) is not ct or [repr(v) for v in self._cells(r)] != want[1]:
                 problem = 'map_(f, col %s) [%s] on a %s table: %s %r, expected %s %r' % (
@@ -901,13 +1142,14 @@ class C19:
                 pass
             if self._snap(dm) != before:
                 problem = 'a write to the mapped column changed the source table'
-        res = {'pyfail': problem, 'tags': tags + ['g:' + fam, 'col:' + ct.__name__], 'nontrivial': len(dm) > 0,
-               'sig': '%s|%s|%s|%d' % ('+'.join(tags), fam, ct.__name__, len(dm)),
+        res = {'pyfail': problem, 'tags': tags + ['g:' + fam, 'col:' + ct.__name__] + (['f-raises'] if ref.raised else [])
+               + (['pending:' + pending] if pending else []), 'nontrivial': len(dm) > 0,
+               'sig': '%s|%s|%s|%d|%s' % ('+'.join(tags), fam, ct.__name__, len(dm), pending),
                'observed': {'outcome': outcome[0] if outcome[0] == 'ok' else outcome[1], 'problem': problem}}
         table = self._tabulate(rec, lambda a: tok_key(plain(a)))
         if table is None:
             res['pyfail'] = self._first(problem, 'HARNESS: the recorded function gave two results for one cell')
-        if lits is not None and in_model and table is not None:
+        if lits is not None and in_model and table is not None and not ref.raised and not pending:
             tbl = L.lst('(%s, %s)' % (O.val(plain(a)), O.pyv(r)) for a, r in table)
             res['oracle'] = 'oracle_map_col %s (%s) %s' % (tbl, col_lit, obs)
             res['model'] = 'model_map_col %s %s (Some %s) (%s) %s' % (tbl, lits[1], L.string(name), col_lit, obs)
@@ -915,14 +1157,15 @@ class C19:
             res['tags'] = res['tags'] + ['python-side-only']
         return res
 
-    def _case_filter_col(self, sub, pending=None):
+    def _case_filter_col(self, sub, pending=None, typed=False):
         import functools
         from datamatrix import functional as fnc
-        dm, tags = self._zoo(sub)
+        dm, tags = self._zoo(sub, extreme=typed)
         if pending == 'F1' and not any(t.startswith('alias') for t in tags):
             dm.b = dm.a
             tags = tags + ['alias-after']
-        name = self._pick_col(sub, dm, True if pending == 'F1' else False)
+        name = self._pick_col(sub, dm, True if pending == 'F1' else False,
+                              None if not typed else (['KFloat', 'KInt'] if pending == 'F6' else ['KMixed']))
         if name is None:
             return {'tags': tags + ['no-such-column'], 'nontrivial': False}
         col = dm[name]
@@ -930,11 +1173,12 @@ class C19:
         if pending == 'F4':
             col = col * 1 if KIND[type(col).__name__] != 'KMixed' else col + ''
             detached = True
-        fam, fn = self._cellpred(sub)
+        fam, fn = self._cellpred_typed(sub) if typed else self._cellpred(sub)
         before = self._snap(dm)
         lits = self._lits(dm)
         col_lit = self._col_lit(name, col) if lits else None
         rec = Recorder(fn, False)
+        ref = RefCalls(fn)
         g = rec.as_cell_function()
         if pending == 'F5':
             g = functools.partial(lambda k, x, _g=g: _g(x), 0)
@@ -942,8 +1186,20 @@ class C19:
         outcome = O.outcome(lambda: fnc.filter_(g, col))
         in_model, obs = self._observe_col(outcome, ct)
         problem = None
-        want = [repr(v) for v in self._cells(col) if truthy(fn(v))]
-        if outcome[0] == 'ok':
+        # the reference applies f to the cells as read from the column (col[i]); an exception of f is the expected outcome
+        want_exn = None
+        try:
+            want = [repr(v) for v in self._cells(col) if truthy(ref(v))]
+        except Exception as e:      # noqa: BLE001
+            want, want_exn = None, O.exn_name(e)
+        if want_exn is not None:
+            if outcome[0] == 'ok':
+                problem = 'filter_(f, col %s) [%s] on a %s table returned although f(cell) raises %s for cell %d' % (
+                    name, fam, '+'.join(tags), want_exn, ref.at)
+            elif outcome[1] != want_exn:
+                problem = 'filter_(f, col %s) [%s] raised %s on a %s table, f(cell) raises %s (cell %d)' % (
+                    name, fam, outcome[1], '+'.join(tags), want_exn, ref.at)
+        elif outcome[0] == 'ok':
             r = outcome[1]
             if type(r) is not ct:
                 problem = 'filter_(f, col %s) on a %s table returned a %s, not a %s' % (
@@ -965,13 +1221,14 @@ class C19:
                 pass
             if self._snap(dm) != before:
                 problem = 'a write to the filtered column changed the source table'
-        res = {'pyfail': problem, 'tags': tags + ['q:' + fam, 'col:' + ct.__name__] + (['pending:' + pending] if pending else []),
+        res = {'pyfail': problem, 'tags': tags + ['q:' + fam, 'col:' + ct.__name__] + (['pending:' + pending] if pending else [])
+               + (['f-raises'] if ref.raised else []),
                'nontrivial': len(dm) > 0, 'sig': '%s|%s|%s|%d|%s' % ('+'.join(tags), fam, ct.__name__, len(dm), pending),
                'observed': {'outcome': outcome[0] if outcome[0] == 'ok' else outcome[1], 'problem': problem}}
         table = self._tabulate(rec, lambda a: tok_key(plain(a)))
         if table is None:
             res['pyfail'] = self._first(problem, 'HARNESS: the recorded predicate gave two results for one cell')
-        if lits is not None and in_model and table is not None and pending in (None, 'F4'):
+        if lits is not None and in_model and table is not None and pending in (None, 'F4') and not ref.raised:
             tbl = L.lst('(%s, %s)' % (O.val(plain(a)), L.boolean(truthy(b))) for a, b in table)
             res['oracle'] = 'oracle_filter_col %s (%s) %s' % (tbl, col_lit, obs)
             res['model'] = 'model_filter_col true 1 %s %s %s (%s) %s' % (
@@ -1144,6 +1401,25 @@ class C19:
     def _case_pending_F5(self, sub):
         return self._case_filter_col(sub, 'F5')
 
+    def _case_pending_F6(self, sub):
+        if sub.random() < 0.5:
+            return self._case_filter_col(sub, 'F6', typed=True)
+        return self._case_map_col(sub, typed=True, pending='F6')
+
+    # functions that depend on the exact Python type / arithmetic of the cells they receive, on tables whose numeric
+    # columns hold the values on which Python numbers and NumPy scalars behave differently
+    def _case_typed_map_dm(self, sub):
+        return self._case_map_dm(sub, typed=True)
+
+    def _case_typed_filter_dm(self, sub):
+        return self._case_filter_dm(sub, typed=True)
+
+    def _case_typed_map_col(self, sub):
+        return self._case_map_col(sub, typed=True)
+
+    def _case_typed_filter_col(self, sub):
+        return self._case_filter_col(sub, typed=True)
+
     def _case_guards(self, sub):
         """non-callable function / an object that is neither a column nor a DataMatrix: TypeError, nothing touched"""
         from datamatrix import functional as fnc
@@ -1176,8 +1452,12 @@ class C19:
         for kind in ('filter_col', 'filter_dm', 'map_col', 'map_dm', 'setcol'):
             for _ in range(per):
                 cases.append(self.probe(kind, rng.randrange(1 << 30)))
+        for kind, k in (('typed_map_dm', per // 2), ('typed_filter_dm', per // 2), ('typed_map_col', per // 4),
+                        ('typed_filter_col', per // 4)):
+            for _ in range(k):
+                cases.append(self.probe(kind, rng.randrange(1 << 30)))
         if INCLUDE_PENDING_FINDINGS:
-            for kind in ('pending_F1', 'pending_F2', 'pending_F3', 'pending_F4', 'pending_F5'):
+            for kind in ('pending_F1', 'pending_F2', 'pending_F3', 'pending_F4', 'pending_F5', 'pending_F6'):
                 for _ in range(per // 4):
                     cases.append(self.probe(kind, rng.randrange(1 << 30)))
         # guards of map_ / filter_ (Python-side outcome, model in Coq)
